@@ -52,6 +52,12 @@ pub fn plain_ident(name: &str) -> String {
     }
 }
 
+/// The name of the vftable struct that belongs to the type called `owner`: `FooVftable`, and
+/// `typeVftable` for `r#type` (the longer name is no keyword and is never written raw).
+pub fn vftable_name(owner: &str) -> String {
+    format!("{}Vftable", owner.strip_prefix("r#").unwrap_or(owner))
+}
+
 /// A type reduced to its shape and the last segment of every path, with `c_void` as `void`.
 pub fn normalise_type(ty: &syn::Type) -> String {
     match ty {
